@@ -8,7 +8,7 @@
 From Coq Require Import String Ascii List Bool Arith Lia.
 From Shoot Require Import Base.Str Model.Transfer Model.MapVal Model.Mapper Model.MapperEval Model.MapperSpec
      Proofs.MapperProofs Proofs.MapperPlanProofs Proofs.MapperFlattenProofs Proofs.MapperAnalyseProofs
-     Proofs.MapperReach Proofs.MapperInvProofs.
+     Proofs.MapperReach Proofs.MapperInvProofs Proofs.TransferProofs.
 Import ListNotations.
 Local Open Scope string_scope.
 Local Open Scope list_scope.
@@ -1123,4 +1123,27 @@ Proof.
   split; intros E.
   - subst. rewrite Nat.eqb_refl in H. symmetry in H. apply Nat.eqb_eq in H. exact H.
   - subst. rewrite Nat.eqb_refl in H. apply Nat.eqb_eq in H. exact H.
+Qed.
+
+(* ------------------------------------------------ what "the names match" means *)
+(* identical names of two plain fields match (without a tag on the source name) *)
+Lemma can_name_match_same f1 f2 tm ic :
+  f_isget f1 = false -> f_isset f1 = false -> f_backing f1 = "" -> f_backing f2 = "" ->
+  tm_get tm (f_name f1) = None -> f_name f1 = f_name f2 ->
+  can_name_match f1 f2 tm ic = true.
+Proof.
+  intros G S B1 B2 T E. unfold can_name_match, matching_name. rewrite G, S, B1, B2. simpl. rewrite T, E.
+  destruct ic.
+  - unfold equal_fold. apply String.eqb_refl.
+  - apply smart_match_refl.
+Qed.
+
+(* a tagged source field matches the destination field its tag names *)
+Lemma can_name_match_tag f1 f2 tm t :
+  f_isget f1 = false -> f_isset f1 = false -> f_backing f1 = "" -> f_backing f2 = "" ->
+  tm_get tm (f_name f1) = Some t -> t = f_name f2 ->
+  can_name_match f1 f2 tm false = true.
+Proof.
+  intros G S B1 B2 T E. unfold can_name_match, matching_name. rewrite G, S, B1, B2. simpl. rewrite T, E.
+  apply smart_match_refl.
 Qed.
